@@ -234,6 +234,14 @@ def lua_sources(tier):
     out.append(('bytes-in-longstring', b''.join(st)))
     out.append(('bytes-in-ident', b''.join(b'a' + bytes([b]) + b'=' + bytes([b]) + b'\n' for b in range(0x80, 0x100))))
     out.append(('nul-in-comment', b'--a\x00b\n'))
+    # every possible final byte of a source that does not end in "\n" (in a comment, and bare blanks after code)
+    for b in range(1, 256):
+        if b == 10:
+            continue
+        out.append(('final-byte-comment-%d' % b, b'x=1\n--c' + bytes([b])))
+    for name, tail in (('cr', b'\r'), ('crcr', b'\r\r'), ('tab', b'\t'), ('space', b' '), ('lfcr', b'\n\r'),
+                       ('cr-only-lines', b'\ry=2\rz=3\r'), ('crlfcr', b'\r\n\r')):
+        out.append(('final-' + name, b'x=1' + tail))
     return out
 
 
@@ -253,7 +261,7 @@ def shards(tier, seed):
     n = 128 if tier == 'quick' else 320
     items = [('regions', tier, lo, min(n, lo + 8)) for lo in range(0, n, 8)]
     items += [('versions', tier, lo, lo + 11) for lo in range(0, len(VERSIONS), 11)]
-    items += [('lua', tier, seed)]
+    items += [('lua', tier, seed, lo) for lo in range(0, len(lua_sources(tier)), 24)]
     sp = special_bytes()
     npairs = len(pair_sources(tier, sp))
     items += [('pairs', tier, i) for i in range(npairs)]
@@ -280,12 +288,14 @@ def run_shard(item):
         res.sample({'family': 'versions', 'versions': VERSIONS[item[2]:item[3]]})
     elif kind == 'lua':
         fills = carts.region_fills(0, item[2])
-        for tag, src in lua_sources(item[1]):
-            for label in (None, carts.gfx_region(0)):
+        lo = item[3] if len(item) > 3 else 0
+        for tag, src in lua_sources(item[1])[lo:lo + 24]:
+            for label in ((None,) if tag.startswith('final-byte-comment') else (None, carts.gfx_region(0))):
                 roundtrip(fills, label, 33, src, res, ('lua', tag, label is not None), chain=2)
         # labels with blank parts: all black, black top rows, only the last pixel set
-        for j, lab in enumerate(LABELS_BLANKISH()):
-            roundtrip(fills, lab, 33, b'x=1\n', res, ('label-blankish', j), chain=2)
+        if lo == 0:
+            for j, lab in enumerate(LABELS_BLANKISH()):
+                roundtrip(fills, lab, 33, b'x=1\n', res, ('label-blankish', j), chain=2)
         res.sample({'family': 'lua', 'source': lua_sources(item[1])[8][1][:40]})
     elif kind == 'pairs':
         sp = special_bytes()
